@@ -705,6 +705,40 @@ case('C20', "C20-seed8", "mutant", 'seeded (round 4): Behaviour fix in `regctl a
 case('C13', "C13-seed5", "mutant", 'seeded (round 3): layer-add decompresses after the tee that feeds the diff-id digester',
      patch="seeded/C13-5/patch.diff", expect=[('C13.R8', 'WithLayerAddTar', "input of archive.Compress")])
 
+# ---------------------------------------------------------------- fifth round of seeded changes (generated from the matrix)
+case('C01', "C01-seed9", "mutant", 'seeded (round 5): pkg/archive Extract (used by `regctl artifact get --output <dir>` for layers that are unpacked, and by API users who pass the',
+     patch="seeded/C01-9/patch.diff", expect=[('C01.R12', 'Extract', "end of the archive")])
+case('C02', "C02-seed9", "mutant", 'seeded (round 5): types/descriptor/descriptor.go DescriptorListFilter was optimised to filter without allocating: the result slice is now dl[',
+     patch="seeded/C02-9/patch.diff", expect=[('C02.R13', 'DescriptorListFilter', "fresh result slice")])
+case('C03', "C03-seed9", "mutant", 'seeded (round 5): scheme/ocidir indexGet (scheme/ocidir/ocidir.go), the function that resolves a tag in the index.json of an OCI Layout for Man',
+     patch="seeded/C03-9/patch.diff", expect=[('C03.R14', 'indexGet', "loose ref.name match HasSuffix")])
+case('C04', "C04-seed9", "mutant", 'seeded (round 5): scheme/reg/manifest.go: the five places that build the key of the registry schemes manifest cache (`rCache := r.SetDigest(..',
+     patch="seeded/C04-9/patch.diff", expect=[('C04.R14', 'ManifestDelete', "cacheMan.Delete key")])
+case('C05', "C05-seed9", "mutant", 'seeded (round 5): Resource handling change in types/blob/reader.go (package types/blob, the reader type every BlobGet returns and therefore the',
+     patch="seeded/C05-9/patch.diff", expect=[('C05.R10', 'Read', "source stays open")])
+case('C06', "C06-seed9", "mutant", 'seeded (round 5): types/tag/taglist.go List.Append (the function scheme/reg TagList uses to merge every page fetched through a Link rel=next he',
+     patch="seeded/C06-9/patch.diff", expect=[('C06.R11', 'Append', "order-free merge")])
+case('C07', "C07-seed9", "mutant", 'seeded (round 5): OCIDir.Close in scheme/ocidir/close.go (GC on close) now deletes the modRefs entry of a path that has not been modified yet (',
+     patch="seeded/C07-9/patch.diff", expect=[('C07.R10', 'Close', "delete(modRefs)")])
+case('C08', "C08-seed9", "mutant", 'seeded (round 5): Lock-scope refactor of the OCI layout schemes manifest push (do not hold the scheme mutex while a manifest file is written ',
+     patch="seeded/C08-9/patch.diff", expect=[('C08.R10', 'referrerPut', "under layout mutex")])
+case('C09', "C09-seed9", "mutant", 'seeded (round 5): RegClient.BlobHead (blob.go, the scheme-independent wrapper) gets the same inline-data shortcut that RegClient.BlobGet alread',
+     patch="seeded/C09-9/patch.diff", expect=[('C09.R12', 'BlobHead', "answer comes from the scheme")])
+case('C10', "C10-seed9", "mutant", 'seeded (round 5): Refactor of types/referrer.ReferrerList.Add (the shared add to the client managed referrers index operation used by scheme/',
+     patch="seeded/C10-9/patch.diff", expect=[('C10.R4', 'Add', "no duplicate entries")])
+case('C11', "C11-seed9", "mutant", 'seeded (round 5): internal/reghttp/http.go wrapTransport.RoundTrip (the transport wrapper every registry and token request passes through, whic',
+     patch="seeded/C11-9/patch.diff", expect=[('C11.R12', 'RoundTrip', "headers in a log entry")])
+case('C12', "C12-seed9", "mutant", 'seeded (round 5): scheme/reg/tag.go TagDelete: after the first attempt (DELETE /v2/<repo>/manifests/<tag>, the OCI delete-by-tag API) an early ',
+     patch="seeded/C12-9/patch.diff", expect=[('C12.R11', 'TagDelete', "probe sent with IgnoreErr")])
+case('C17', "C17-seed9", "mutant", 'seeded (round 5): scheme/reg blobUploadCancel() (the DELETE that drops an abandoned blob upload session): robustness change so the session is',
+     patch="seeded/C17-9/patch.diff", expect=[('C17.R10', 'blobUploadCancel', "context of Do")])
+case('C18', "C18-seed9", "mutant", 'seeded (round 5): cmd/regsync/root.go runOnce (regsync once): the two ways of running the configured sync entries - one goroutine per entry w',
+     patch="seeded/C18-9/patch.diff", expect=[('C18.R9', 'runOnce', "goroutine per entry")])
+case('C19', "C19-seed9", "mutant", 'seeded (round 5): Robustness feature in the library core, scheme/ocidir/close.go (OCI layout scheme, file not touched in earlier rounds): OCIDi',
+     patch="seeded/C19-9/patch.diff", expect=[('C19.R7', 'Close', "sweep removal")])
+case('C20', "C20-seed9", "mutant", 'seeded (round 5): File-permission fix in scheme/ocidir: os.CreateTemp always creates files with mode 0600, so every blob, manifest, index.json ',
+     patch="seeded/C20-9/patch.diff", expect=[('C20.R1', 'tmpCreate', "os.OpenFile path")])
+
 def main():
     bad = 0
     for pid, cases in CASES.items():
